@@ -1,0 +1,31 @@
+//go:build verif
+
+package server
+
+import (
+	"net"
+	"time"
+)
+
+// Accessors for the verification harness (build tag verif only).
+
+// VerifGetConnKey exposes getConnKey.
+func VerifGetConnKey(raddr, laddr *net.UDPAddr) string { return getConnKey(raddr, laddr) }
+
+// VerifLocalAddrCanFallbackToWildcard exposes localAddrCanFallbackToWildcard.
+func VerifLocalAddrCanFallbackToWildcard(laddr *net.UDPAddr) bool {
+	return localAddrCanFallbackToWildcard(laddr)
+}
+
+// VerifToWildcardLocalAddr exposes toWildcardLocalAddr.
+func VerifToWildcardLocalAddr(laddr *net.UDPAddr) *net.UDPAddr { return toWildcardLocalAddr(laddr) }
+
+// VerifTick runs one round of handleInactivityMonitors.
+func (s *Server) VerifTick(now time.Time) { s.handleInactivityMonitors(now) }
+
+// VerifConnCount returns the number of entries of the peer table.
+func (s *Server) VerifConnCount() int {
+	s.connsMutex.Lock()
+	defer s.connsMutex.Unlock()
+	return len(s.conns)
+}
